@@ -19,12 +19,24 @@ var blockedStates = []string{
 }
 
 // busyState returns "" when every goroutine but the caller is blocked, else the state of one that is not.
+// Goroutines of os/exec that serve a run of the dependency's command (the executor's cmd.Wait in a wait syscall, the
+// copier of the command's output in IO wait) are blocked exactly when that run sits at its gate: every run whose process
+// exists waits at its gate, and there are as many goroutines inside cmd.Wait as such runs (one more = a Wait that is
+// about to return, or a command that has not logged its start yet).
 func busyState(buf []byte) string {
 	n := runtime.Stack(buf, true)
 	blocks := strings.Split(string(buf[:n]), "\n\n")
+	waiters := 0
 	for i, blk := range blocks {
 		if i == 0 {
 			continue // the caller
+		}
+		if strings.Contains(blk, "os/exec.(*Cmd).") && !strings.Contains(blk, "os/exec.(*Cmd).Run(") {
+			continue // watchCtx / copier goroutines of a command: they follow the command
+		}
+		if strings.Contains(blk, "os/exec.(*Cmd).Run(") && strings.Contains(blk, "os/exec.(*Cmd).Wait(") {
+			waiters++
+			continue
 		}
 		open := strings.IndexByte(blk, '[')
 		closeAt := strings.IndexByte(blk, ']')
@@ -46,6 +58,13 @@ func busyState(buf []byte) string {
 			return state
 		}
 	}
+	live, waiting, _ := depRuns.view()
+	if live != len(waiting) {
+		return "command of the dependency running"
+	}
+	if waiters != len(waiting) {
+		return "command of the dependency starting or ending"
+	}
 	return ""
 }
 
@@ -64,6 +83,8 @@ func waitQuiescent(b *backend, timeout time.Duration) string {
 		b.mu.Lock()
 		ne := len(b.events) + 1000*len(b.held)
 		b.mu.Unlock()
+		_, waiting, lines := depRuns.view()
+		ne += 1000000*len(waiting) + 100000000*lines
 		if st == "" && ne == lastEvents {
 			calm++
 			if calm >= 2 {
